@@ -258,6 +258,22 @@ func c03tRun(in c03tInput) (msg, key string, infra bool, cases int) {
 			echo.got = echo.got[:0]
 			var out json.RawMessage
 			var err error
+			if i == 1 {
+				// a call without a parameters member behind one that had them
+				echo.got = echo.got[:0]
+				var outn json.RawMessage
+				nctx, ncancel := context.WithCancel(context.Background())
+				wd := time.AfterFunc(60*time.Second, ncancel)
+				// (this context has no deadline: whatever deadline an earlier operation armed on the transport is over)
+				err := conn.Call(nctx, "t.r.Echo", nil, &outn)
+				wd.Stop()
+				ncancel()
+				cases++
+				if err != nil || len(echo.got) != 1 || !(strings.HasPrefix(echo.got[0], "ERR:") || echo.got[0] == "null" || echo.got[0] == "{}") {
+					return fmt.Sprintf("%s: a call without parameters under a context without deadline (after a call with %s under a 150 ms deadline that was met, 300 ms earlier): the handler read %s, err %v", in.Transport, short(in.Docs[0]), short(strings.Join(echo.got, "|")), err), "symptom=call-without-parameters transport=" + in.Transport, false, cases
+				}
+				echo.got = echo.got[:0]
+			}
 			if i == len(in.Docs)-1 {
 				// the last document travels oneway and the client closes at once: the handler still reads it
 				before := echo.handled.Load()
@@ -276,7 +292,17 @@ func c03tRun(in c03tInput) (msg, key string, infra bool, cases int) {
 				}
 				continue
 			}
-			if i%2 == 0 {
+			if i == 0 && len(in.Docs) > 2 {
+				// the first call runs under a short deadline that it meets; the next operation comes after that instant
+				dctx, dcancel := context.WithTimeout(ctx, 150*time.Millisecond)
+				err = conn.Call(dctx, "t.r.Echo", json.RawMessage(doc), &out)
+				dcancel()
+				if err == nil {
+					time.Sleep(300 * time.Millisecond)
+				} else if dctx.Err() != nil {
+					return "the first call did not finish within its 150 ms deadline", "infra", true, cases
+				}
+			} else if i%2 == 0 {
 				err = conn.Call(ctx, "t.r.Echo", json.RawMessage(doc), &out)
 			} else {
 				var recv func(context.Context, interface{}) (uint64, error)
